@@ -63,6 +63,10 @@ inductive Ty where
   | bytes
   /-- `Box<T>`/`Rc<T>`/`Arc<T>` with `size_of::<T>() = sz`. -/
   | box (sz : Nat) (t : Ty)
+  /-- A user-defined wrapper type relying on the PROVIDED `WrapperTypeDecode::decode_wrapped`
+      (`descend_ref`, decode the wrapped type, `ascend_ref`, `into`) and on `WrapperTypeEncode`:
+      a nesting level, no heap announcement. -/
+  | wrap (t : Ty)
   | duration
   | range (t : Ty)
   /-- `BitVec<T, O>`/`BitBox`/`BitSlice`: store type and bit order (`msb = true` for `Msb0`). -/
